@@ -94,13 +94,13 @@ impl TimeFilter for ts::TimeSpan {
             if start < end {
                 end
             } else {
-                end.add_hours(24)
-                    .expect("overflow during TimeSpan resolution")
+                end.add_hours(24).unwrap_or(ExtendedTime::MIDNIGHT_48)
             }
         };
 
-        assert!(start <= end);
-        start..end
+        // A start defined from a sun event with a big offset may still be after the end of the
+        // span, which results in an empty range.
+        start..std::cmp::max(start, end)
     }
 }
 
